@@ -100,6 +100,9 @@ pub fn run_scenario(sc: &Scenario) -> Judged {
         return j;
     }
     let mut expected = Pos::startpos();
+    // false after ucinewgame: the property does not say what the current position is then
+    // (only what it is after a position command), so nothing is compared until the next one
+    let mut expected_known = true;
     let mut prev_was_position = false;
     for line in &sc.lines {
         let tok = line.split_whitespace().next().unwrap_or("");
@@ -111,6 +114,7 @@ pub fn run_scenario(sc: &Scenario) -> Judged {
                     continue;
                 };
                 expected = p;
+                expected_known = true;
                 if prev_was_position {
                     j.probes.add("position_after_position", 1);
                 }
@@ -148,14 +152,10 @@ pub fn run_scenario(sc: &Scenario) -> Judged {
                 prev_was_position = true;
             }
             "ucinewgame" => {
-                expected = Pos::startpos();
+                expected_known = false;
                 prev_was_position = false;
                 if o != Outcome::Returned {
                     j.violations.push(("crash".into(), format!("ucinewgame: {:?}", o)));
-                    break;
-                }
-                if let Some(d) = board_diff(&sess.board(), &expected) {
-                    j.violations.push(("board_mismatch".into(), format!("after ucinewgame: {}", d)));
                     break;
                 }
             }
@@ -172,7 +172,12 @@ pub fn run_scenario(sc: &Scenario) -> Judged {
                         break;
                     }
                 }
-                // other commands must not move the board
+                // other commands must not move the board: the position set by the last
+                // position command is still the current one
+                if !expected_known {
+                    continue;
+                }
+                j.probes.add("board_rechecked_after_other_command", 1);
                 if let Some(d) = board_diff(&sess.board(), &expected) {
                     j.violations.push(("board_mismatch".into(), format!("after '{}' (which is not a position command): {}", shorten(line), d)));
                     break;
@@ -263,13 +268,56 @@ pub fn generate(seed: u64) -> Scenario {
     let mut rng = Rng::new(seed);
     let n = rng.range(1, 12);
     let mut lines = vec![];
+    // (root, start, moves) of the position commands sent so far
+    let mut sent: Vec<(String, Pos, Vec<RMove>)> = vec![];
     for _ in 0..n {
         // sometimes something else in between
         match rng.below(8) {
             0 => lines.push("isready".to_string()),
             1 => lines.push("ucinewgame".to_string()),
             2 => lines.push("go depth 1".to_string()),
+            3 => {
+                if rng.chance(1, 2) {
+                    lines.push("ucinewgame".to_string());
+                    lines.push("isready".to_string());
+                }
+            }
             _ => {}
+        }
+        // one command in four is related to an earlier one of this process: the same text
+        // again, the same game a few plies further (what a GUI sends move after move), or
+        // the same game with moves taken back
+        if !sent.is_empty() && rng.chance(1, 4) {
+            let (root, start, ms) = rng.pick(&sent).clone();
+            let ms2: Vec<RMove> = match rng.below(3) {
+                0 => ms.clone(),
+                1 => {
+                    let mut p = start.clone();
+                    for m in &ms {
+                        p = p.make(m);
+                    }
+                    let k = rng.range(1, 4) as usize;
+                    let (more, _) = gen::playout(&mut rng, &p, k, 1);
+                    let mut all = ms.clone();
+                    all.extend(more);
+                    all
+                }
+                _ => ms[..rng.usize_below(ms.len() + 1)].to_vec(),
+            };
+            let mut l = format!("position {}", root);
+            if !ms2.is_empty() {
+                l.push_str(" moves");
+                for m in &ms2 {
+                    l.push(' ');
+                    l.push_str(&m.uci());
+                }
+            }
+            lines.push(l);
+            sent.push((root, start, ms2));
+            if rng.chance(1, 3) {
+                lines.push("isready".to_string());
+            }
+            continue;
         }
         let (root, start) = if rng.chance(1, 2) {
             ("startpos".to_string(), Pos::startpos())
@@ -295,6 +343,9 @@ pub fn generate(seed: u64) -> Scenario {
             }
         }
         lines.push(reshape(&mut rng, &l));
+        if ms.len() <= 60 {
+            sent.push((root, start, ms));
+        }
     }
     if rng.chance(1, 4) {
         lines.push("go depth 1".into());
@@ -445,7 +496,7 @@ pub fn run(ctx: &Ctx) -> i32 {
     });
     let ev = Evidence {
         level: "exploration",
-        rule: "One sim = one engine process fed 1-12 position commands (startpos or a FEN written by the rules model at a seeded point of a seeded game, with halfmove 0..150, fullmove 1..6000 and a seeded subset of the supported castling rights; move lists of 0..300 plies biased towards castling, en passant, promotions incl. capturing ones, rook captures on corners), interleaved with isready / ucinewgame / go depth 1, with CR, tab and blank-run variations. After every position line the engine's board (64 squares, side, four rights, ep target, internal consistency) must equal the rules model's; other commands must leave it alone; 5% of sessions are re-run through the real uci_loop and must give the same transcript. Evaluations = position commands compared; distinct by final position.".into(),
+        rule: "One sim = one engine process fed 1-12 position commands (startpos or a FEN written by the rules model at a seeded point of a seeded game, with halfmove 0..150, fullmove 1..6000 and a seeded subset of the supported castling rights; move lists of 0..300 plies biased towards castling, en passant, promotions incl. capturing ones, rook captures on corners), interleaved with isready / ucinewgame / go depth 1, with CR, tab and blank-run variations; one command in four is related to an earlier one of the same process (the same text again, the same game a few plies further, the same game with moves taken back). After every position line the engine's board (64 squares, side, four rights, ep target, internal consistency) must equal the rules model's; other commands (isready, go, ...) must leave it alone; nothing is claimed between ucinewgame and the next position command; 5% of sessions are re-run through the real uci_loop and must give the same transcript. Evaluations = position commands compared; distinct by final position.".into(),
         extra: serde_json::Map::new(),
         assumptions: vec![
             "the oracle is the independent rules model R (perft-validated), not the engine's generator".into(),
